@@ -235,19 +235,11 @@ class DataPath:
 
     def to_part_specs(self):
         parts = []
-        for i in self.parts:
-            try:
-                part_spec = i.condition.callable.kwargs["value"]
-            except KeyError:
-                if isinstance(i, MapOrListValue):
-                    part_spec = i.list_condition.callable.kwargs["value"]
-                elif i.CONTAINER_TYPE is Container.MAP:
-                    part_spec = {"type": "map_value"}
-                elif i.CONTAINER_TYPE is Container.LIST:
-                    part_spec = {"type": "list_value"}
-                else:
-                    raise RuntimeError(f"Cannot convert part to a part spec: {i!r}.")
-            parts.append(part_spec)
+        for part, simple in zip(self.parts, self.simplify()):
+            if isinstance(simple, ContainerValue):
+                parts.append(part.to_spec())
+            else:
+                parts.append(simple)
         return parts
 
     @classmethod
@@ -478,6 +470,7 @@ class DataPath:
             is_single_cond = not part.condition.flatten()[1]
             if (
                 isinstance(part, MapValue)
+                and part.label is None
                 and is_single_cond
                 and isinstance(part.condition, cnds.Key)
                 and part.condition.callable.name == "equal_to"
@@ -492,6 +485,11 @@ class DataPath:
                 and isinstance(part.map_condition, cnds.Key)
                 and not part.map_condition.flatten()[1]
                 and part.map_condition.callable.name == "equal_to"
+                and part.label is None
+                and type(part.list_condition.callable.kwargs["value"])
+                is type(part.map_condition.callable.kwargs["value"])
+                and part.list_condition.callable.kwargs["value"]
+                == part.map_condition.callable.kwargs["value"]
             ):
                 out.append(part.list_condition.callable.kwargs["value"])
             else:
@@ -522,6 +520,22 @@ class ContainerValue:
         ):
             return True
         return False
+
+    def to_spec(self):
+        """Get a dict that `ContainerValue.from_spec` converts back to this part."""
+        TYPE_LOOKUP = {
+            MapValue: "map_value",
+            ListValue: "list_value",
+            MapOrListValue: "map_or_list_value",
+        }
+        spec = {"type": TYPE_LOOKUP[type(self)]}
+        for name in ("condition", "list_condition", "map_condition"):
+            cond = getattr(self, name, None)
+            if cond is not None and not cond.is_null:
+                spec[name] = cond.to_json_like()
+        if self.label is not None:
+            spec["label"] = self.label
+        return spec
 
     @staticmethod
     def from_spec(spec):
